@@ -130,6 +130,9 @@ fn extract(evs: &[Ev], nb: bool) -> Option<Windows> {
 
 #[allow(clippy::too_many_arguments)]
 fn check_windows(reg: Reg, front: Front, join: bool, snap: &lorawan_device::verif::Snapshot, snap_after: &lorawan_device::verif::Snapshot, accepted: bool, model: &Model, evs: &[Ev], tx_done_ms: u32, lead: u32, col: &mut Collector, what: &str, extra: serde_json::Value) {
+    // (top bit of `lead`: the board's offset is positive - windows after the nominal instant)
+    let late = lead & 0x8000_0000 != 0;
+    let lead = lead & 0x7FFF_FFFF;
     let nb = front == Front::Nb;
     let Some(w) = extract(evs, nb) else { return };
     col.event("windows_checked");
@@ -262,7 +265,7 @@ fn check_windows(reg: Reg, front: Front, join: bool, snap: &lorawan_device::veri
     }
     // ---- timing -----------------------------------------------------------------------------------
     let d1: u64 = if join { 5000 } else { snap.rx1_delay as u64 };
-    let mut exp_t1 = (d1 + tx_done_ms as u64).saturating_sub(lead as u64);
+    let mut exp_t1 = if late { d1 + tx_done_ms as u64 + lead as u64 } else { (d1 + tx_done_ms as u64).saturating_sub(lead as u64) };
     let mut exp_t2 = exp_t1 + 1000;
     if nb {
         // a 32-bit millisecond clock: instants are taken modulo 2^32
@@ -322,8 +325,15 @@ fn data_case(reg: Reg, front: Front, dslot: Option<usize>, off: Option<u8>, dcla
     if txd > 0x7000_0000 {
         col.event("nb_clock_upper_half");
     }
+    // state-machine front-end: one board in three with a lead time declares it as a positive offset (its
+    // windows are to be opened that long after the nominal instant); carried to the oracle in the top bit
+    let late = front == Front::Nb && lead > 0 && rng.chance(1, 3);
+    if late {
+        col.event("nb_positive_window_offsets");
+    }
     {
         let mut l = link.dev.log.borrow_mut();
+        l.late = late;
         l.lead_ms = lead;
         // a board may declare a listening buffer shorter than its lead time: the timers follow the lead time
         l.buffer_ms = if lead > 0 && lead % 100 == 0 { Some(lead / 5) } else { None };
@@ -501,7 +511,7 @@ fn data_case(reg: Reg, front: Front, dslot: Option<usize>, off: Option<u8>, dcla
                 );
             }
         }
-        check_windows(reg, front, false, &snap, &after, matches!(t.resp, Resp::DownlinkReceived(_)), &model, &t.evs, txd, lead, col, if changed { "with-param-change-in-flight" } else { "plain" }, json!({"step": step, "dr": dr}));
+        check_windows(reg, front, false, &snap, &after, matches!(t.resp, Resp::DownlinkReceived(_)), &model, &t.evs, txd, if late { lead | 0x8000_0000 } else { lead }, col, if changed { "with-param-change-in-flight" } else { "plain" }, json!({"step": step, "dr": dr}));
         if col.want_sample() && step == 0 {
             col.sample(json!({"region": reg.name(), "front": front.name(), "dr": dr, "offset_requested": want_off, "rx2_override": rx2_override, "events": format!("{:?}", t.evs.iter().filter(|e| !matches!(e, Ev::Tx{..})).collect::<Vec<_>>())}));
         }
